@@ -201,6 +201,31 @@ def runCmds (cbs : Cbs) : List (Ord × Cmd) → Cbs
   | [] => cbs
   | (ord, c) :: cs => runCmds (exec ord cbs c).2 cs
 
+/-! ### several networks: every `Irc` object refers to one and the same list object
+
+`Irc.__init__(self, network, callbacks=_callbacks)` binds `self.callbacks` to the module-level list;
+`addCallback` / `removeCallback` only ever mutate that object in place (`append`,
+`self.callbacks[:] = …`), they never rebind `self.callbacks`. -/
+
+structure World where
+  /-- the list objects that exist -/
+  heap : List Cbs
+  /-- per `Irc` object: which list object its `self.callbacks` is -/
+  ref : List Nat
+
+/-- what the `i`-th `Irc` sees as `irc.callbacks` -/
+def World.view (w : World) (i : Nat) : Cbs := w.heap.getD (w.ref.getD i 0) []
+
+/-- an Owner command arriving on the `i`-th network: the list object is updated in place -/
+def execOn (ord : Ord) (w : World) (i : Nat) (c : Cmd) : Reply × World :=
+  let r := w.ref.getD i 0
+  let res := exec ord (w.heap.getD r []) c
+  (res.1, { w with heap := w.heap.set r res.2 })
+
+def runOn (w : World) : List (Ord × Nat × Cmd) → World
+  | [] => w
+  | (ord, i, c) :: cs => runOn (execOn ord w i c).2 cs
+
 /-- the commands the dispatcher can route: those of the registered plugins -/
 def answered (cbs : Cbs) : List Name := cbs.flatMap (·.commands)
 
